@@ -1165,7 +1165,8 @@ class PolyhedralTermList(TermList):  # noqa: WPS338
             return False
         n, m = a.shape
         if n * m == 0:
-            return False
+            # constraints without variables read 0 <= b: unsatisfiable exactly when some b is negative
+            return bool(np.any(np.asarray(b) < 0))
         assert n == len(b)
         objective = np.zeros((1, m))
         res = linprog(c=objective, A_ub=a, b_ub=b, bounds=(None, None))  # ,options={'tol':0.000001})
